@@ -9,6 +9,7 @@ import (
 	"sync/atomic"
 	"testing"
 	"testing/synctest"
+	"time"
 	"unsafe"
 )
 
@@ -91,6 +92,13 @@ type Sched struct {
 	Waves      int
 	Stragglers []string
 	Notes      int
+
+	// ClockJumpEvery > 0: after every so many steps the simulated clock jumps forward by
+	// ClockJump (the driver sleeps inside the bubble while everything else is parked; costs
+	// no real time).  Code that reads the clock for a budget or a deadline sees the jump.
+	ClockJumpEvery int
+	ClockJump      time.Duration
+	ClockJumps     int
 }
 
 func NewSched(points ...string) *Sched {
@@ -260,6 +268,10 @@ func (s *Sched) Run(t *testing.T, root func(), picker Picker, maxSteps int) (res
 				continue
 			}
 			s.Steps++
+			if s.ClockJumpEvery > 0 && s.Steps%s.ClockJumpEvery == 0 {
+				time.Sleep(s.ClockJump)
+				s.ClockJumps++
+			}
 			if idx < 0 {
 				s.Waves++
 				keys := make([]string, len(parked))
